@@ -77,6 +77,30 @@ PROPS = {
         ],
         "not_covered": ["Files::sort", "Files::specification"],
     },
+    "C01": {
+        "units": ["tau"],
+        "level": "other",
+        "property_obligations": ["choose_fresh_variable_names", "lemma_taken_bound", "lemma_pigeonhole"],
+        "carriers": [],
+        "explanation": "wip",
+        "assumptions": [],
+    },
+    "C09": {
+        "units": ["problem"],
+        "level": "other",
+        "property_obligations": ["Problem::create_unique_formula_names", "lemma_unique_names", "Problem::add_theory"],
+        "carriers": [],
+        "explanation": "Only the 'formula names are unique' clause of C09 is decided: Verus proves on the real Problem::create_unique_formula_names that the i-th name is formula_{i}_{old name}, "
+                       "roles and formulas are kept in order, and any two positions get different names whatever the old names are (decimal numerals are digit strings and injective). Problem::add_theory is proved to "
+                       "append the annotated formulas in order with their own indices. NOT decided: declarations and typing (they exist only as text written by Display for Problem through core::fmt), "
+                       "rename_conflicting_symbols (iterator filter: completeness not derivable in this Verus), add_annotated_formulas (generic IntoIterator), one-conjecture-per-problem (decompose_*: enumerate inside map closures).",
+        "assumptions": [
+            "T8/D6: format! with bare placeholders = concatenation of Display renderings; Display of usize is its decimal numeral (digits only, injective)",
+            "declarations/typing clauses of C09: NOT covered (fmt code)",
+            "Problem::rename_conflicting_symbols, add_annotated_formulas, decompose_independent/sequential: NOT verified",
+        ],
+        "not_covered": ["Display for Problem (declarations, types)", "rename_conflicting_symbols", "add_annotated_formulas", "decompose_*"],
+    },
     "C12": {
         "units": ["strong"],
         "level": "other",
